@@ -375,6 +375,28 @@ Theorem C15_configuration_code_pinned :
 Proof. exact clone_key_values_pinned. Qed.
 Print Assumptions C15_configuration_code_pinned.
 
+(* The decoder is installed at exactly one place, once per response (Transport.RoundTrip ->
+   handleResponseBody -> autoDecodeResponseBody, above the transport-middleware chain and the download
+   callback's wrapper), and Response.ToBytes reads the decoded body to io.EOF (source texts pinned by
+   gosync); both matter: *)
+Theorem C15_decoder_installed_once_pinned :
+  In (bs "callers:autoDecodeResponseBody", bs "handleResponseBody:1") decode_setters /\
+  In (bs "callers:handleResponseBody", bs "RoundTrip:1") decode_setters /\
+  In (bs "callers:newAutoDecodeReadCloser", bs "autoDecodeResponseBody:1") decode_setters /\
+  In (bs "Response.ToBytes:reads", bs "body, err = io.ReadAll(r.Body)") decode_setters.
+Proof. exact decoder_installed_once_pinned. Qed.
+Print Assumptions C15_decoder_installed_once_pinned.
+
+(* ... transcoding twice, or stopping at the undecoded (declared) length, is a third result *)
+Theorem C15_decode_twice_or_cut_is_a_third_result :
+  exists (enc : Type) (dec_all : enc -> bytes -> bytes) (dec_stream : enc -> list bytes -> bytes) (e : enc) (body : bytes),
+    decoder_ok dec_all dec_stream /\
+    dec_all e (dec_all e body) <> body /\ dec_all e (dec_all e body) <> dec_all e body /\
+    length body < length (dec_all e body) /\
+    firstn (length body) (dec_all e body) <> body /\ firstn (length body) (dec_all e body) <> dec_all e body.
+Proof. exact decode_twice_or_cut_is_a_third_result. Qed.
+Print Assumptions C15_decode_twice_or_cut_is_a_third_result.
+
 (* The pinned (pre-fix) peekRead violates two_results_only in three ways; witnesses kept checked
    (toy two-byte charset so that they are closed and computable). *)
 Theorem C15_two_results_only_pinned_refuted :
